@@ -225,7 +225,9 @@ def run_shard(shard, tier, acc):
         for order in (ORDERS[0], ORDERS[3], ORDERS[40], ORDERS[200], ORDERS[-1]):
             for on_top in (True, False):
                 types = tuple(TYPES[i] for i in order)
-                leak.run(lambda t=types, o=on_top: SortBlocksByTypeAndKeyMiddleware(block_type_order=t, preserve_comments_on_top=o), inputs, acc, f"SortBlocks({[TNAMES[i] for i in order]},{on_top})", case_of=lambda i: list(libs[i]))
+                from .. import hostile
+
+                leak.run(lambda t=types, o=on_top: SortBlocksByTypeAndKeyMiddleware(block_type_order=t, preserve_comments_on_top=o), inputs, acc, f"SortBlocks({[TNAMES[i] for i in order]},{on_top})", case_of=lambda i: list(libs[i]), poison=hostile.libraries(), judge=leak.copy_judge)
         return
     _, a, b = shard
     libs = [(a, b)]
